@@ -69,7 +69,7 @@ class SplittingSimulation(BaseSimulation):
                 'name': self.decoders[0].id,
                 'parameters': self.decoders[0].params,
             },
-            'error_rates': self.error_rates,
+            'error_rates': [float(p) for p in self.error_rates],
             'method': {
                 'name': 'splitting',
                 'parameters': {
@@ -78,6 +78,14 @@ class SplittingSimulation(BaseSimulation):
                 }
             }
         }
+
+    def load_results_from_dict(self, data):
+        super().load_results_from_dict(data)
+        # Keep the per-error-rate chains as lists so that a resumed run
+        # can append to them
+        self._results['log_p_errors'] = [
+            list(log_p) for log_p in self._results['log_p_errors']
+        ]
 
     def _run(self, n_runs: int):
         """Run assuming perfect measurement."""
